@@ -29,3 +29,142 @@ def run_state_grid(case):
         if hc != c or got != (lo, hi):
             out[-1] += f" MISMATCH has_contradiction={hc} stored={got}"
     return {"lines": ["reset"] + lines, "impl": ["ok"] + out, "meta": {"alpha": q(a)}}
+
+
+def run_c03_batch(case):
+    """one connective over distinct atoms; for every combination of bounds: add_data on all of them,
+    connective.upward(), connective.downward(), dump, has_contradiction."""
+    import impl
+    L = impl.lnn()
+    n = case["n"]
+    nodes = [{"id": i, "kind": "atom"} for i in range(n)]
+    nodes.append({"id": n, "kind": case["kind"], "ops": list(range(n)), "w": case["w"], "b": case["b"], "act": case["act"]})
+    kb = impl.PropKB({"nodes": nodes, "roots": [n]})
+    kb.add_roots()
+    lines = kb.header_lines()
+    out = ["ok"] * len(lines)
+    conn = kb.obj[n]
+    ids = ",".join(map(str, kb.order))
+    for combo in case["combos"]:
+        for i, (lo, hi) in enumerate(combo):
+            kb.model.add_data({kb.obj[i]: (float(lo), float(hi))})
+            lines.append(f"set {i} {q(lo)} {q(hi)}")
+            out.append("ok")
+        r = conn.upward()
+        lines.append(f"up {n}")
+        out.append("r " + q(impl.amount(r)))
+        r = conn.downward()
+        lines.append(f"down {n} -")
+        out.append("r " + q(impl.amount(r)))
+        lines.append("dump " + ids)
+        out.append(kb.dump())
+        lines.append("contra " + ids)
+        out.append("c %d" % (1 if kb.model.has_contradiction() else 0))
+    return {"lines": lines, "impl": out, "meta": {}}
+
+
+# ------------------------------------------------------------------ C04: truth tables on trees
+
+def tree_to_desc(tree, n_atoms):
+    """nested tuples -> KB description with one object per sub-tree occurrence (atoms shared)"""
+    nodes = [{"id": i, "kind": "atom"} for i in range(n_atoms)]
+    sub = []          # (id, tree) of every non-atom sub-formula
+
+    def rec(t):
+        if t[0] == "atom":
+            return t[1]
+        ops = [rec(x) for x in t[1:]]
+        nid = len(nodes)
+        nodes.append({"id": nid, "kind": t[0], "ops": ops})
+        sub.append((nid, t))
+        return nid
+
+    root = rec(tree)
+    return {"nodes": nodes, "roots": [root]}, sub
+
+
+def run_c04_trees(case):
+    import impl
+    L = impl.lnn()
+    n_atoms = case["atoms"]
+    vals3 = {"F": (0.0, 0.0), "U": (0.0, 1.0), "T": (1.0, 1.0)}
+    lines, out, results = [], [], []
+    import itertools
+    for tree in case["trees"]:
+        desc, sub = tree_to_desc(tree, n_atoms)
+        impl.take_log()
+        kb = impl.PropKB(desc)
+        kb.add_roots()
+        lines += kb.header_lines()
+        out += ["ok"] * (len(kb.order) + 1)
+        ids = ",".join(map(str, kb.order))
+        for val in itertools.product("FUT", repeat=n_atoms):
+            kb.model.reset_bounds()
+            lines.append("resetb"); out.append("ok")
+            reg = set(kb.registered_ids())
+            for i, x in enumerate(val):
+                if i not in reg:
+                    continue          # an atom the formula does not mention is not in the model
+                kb.model.add_data({kb.obj[i]: vals3[x]})
+                lines.append(f"set {i} {int(vals3[x][0])} {int(vals3[x][1])}"); out.append("ok")
+            impl.take_log()
+            steps, r = kb.model.upward()
+            sched = kb.calls(impl.take_log(), "upward")
+            lines.append("pass up " + ",".join(map(str, sched)))
+            out.append("r " + q(impl.amount(r)))
+            lines.append("dump " + ids)
+            out.append(kb.dump())
+            states = {i: kb.obj[i].state().name for i, _ in sub}
+            # children-first: every operand of a called node was called earlier or is an atom
+            seen = set()
+            ok = True
+            for i in sched:
+                o = kb.obj[i]
+                pre = []
+                if type(o).__name__ == "Iff":
+                    pre = [o.Imp1, o.Imp2]
+                for x in o.operands:
+                    j = kb.idof[id(x)]
+                    if type(x).__name__ != "Proposition" and j not in seen and x not in pre and type(o).__name__ != "XOr":
+                        ok = False
+                seen.add(i)
+            results.append({"tree": tree, "val": "".join(val), "states": states, "children_first": ok})
+    return {"lines": lines, "impl": out, "meta": {"results": results}}
+
+
+def run_c04_duals(case):
+    """dual formulations must give identical bounds in both directions. case: {'w','b','act','A','B','op','kind'}
+    kind 'or': Or(A,B) vs Not(And(Not A, Not B)); kind 'implies': Implies(A,B) vs Or(Not A, B)."""
+    import impl
+    L = impl.lnn()
+    lines, out = [], []
+    res = {}
+    act = {"w": case["w"], "b": case["b"], "act": case["act"]}
+    if case["kind"] == "or":
+        d1 = {"nodes": [{"id": 0, "kind": "atom"}, {"id": 1, "kind": "atom"}, dict(id=2, kind="or", ops=[0, 1], **act)], "roots": [2]}
+        d2 = {"nodes": [{"id": 0, "kind": "atom"}, {"id": 1, "kind": "atom"}, {"id": 3, "kind": "not", "ops": [0]},
+                        {"id": 4, "kind": "not", "ops": [1]}, dict(id=5, kind="and", ops=[3, 4], **act),
+                        {"id": 2, "kind": "not", "ops": [5]}], "roots": [2]}
+    else:
+        d1 = {"nodes": [{"id": 0, "kind": "atom"}, {"id": 1, "kind": "atom"}, dict(id=2, kind="implies", ops=[0, 1], **act)], "roots": [2]}
+        d2 = {"nodes": [{"id": 0, "kind": "atom"}, {"id": 1, "kind": "atom"}, {"id": 3, "kind": "not", "ops": [0]},
+                        dict(id=2, kind="or", ops=[3, 1], **act)], "roots": [2]}
+    for name, d in (("direct", d1), ("dual", d2)):
+        kb = impl.PropKB(d)
+        kb.add_roots()
+        lines += kb.header_lines()
+        out += ["ok"] * (len(kb.order) + 1)
+        for i, key in ((0, "A"), (1, "B"), (2, "op")):
+            lo, hi = case[key]
+            kb.model.add_data({kb.obj[i]: (float(lo), float(hi))})
+            lines.append(f"set {i} {q(lo)} {q(hi)}"); out.append("ok")
+        for direction in ("up", "down"):
+            impl.take_log()
+            steps, r = (kb.model.upward() if direction == "up" else kb.model.downward())
+            sched = kb.calls(impl.take_log(), direction + "ward")
+            lines.append(f"pass {direction} " + ",".join(map(str, sched)))
+            out.append("r " + q(impl.amount(r)))
+            lines.append("dump 0,1,2")
+            out.append("d " + " ".join("%s,%s" % tuple(q(x) for x in impl.bounds_of(kb.obj[i])) for i in (0, 1, 2)))
+            res[(name, direction)] = out[-1]
+    return {"lines": lines, "impl": out, "meta": {"res": {f"{a}:{b}": v for (a, b), v in res.items()}}}
